@@ -65,6 +65,20 @@ Definition c18_formatString_n (bufferSize : nat) (F : c18_str) : c18_str :=
     c18_cstr dyn.
 Definition c18_formatString (F : c18_str) : c18_str := c18_formatString_n c18_param_format_buffer F.
 
+(* the prefix / suffix argument is a `const char*`: what the function sees is the C string up to the first NUL
+   (std::strlen); the container may be any character container (std::string, string_view, vector<char>,
+   list<char>, deque<char> ...): only size(), begin() and std::advance are used, so one model serves all *)
+Definition c18_hasPrefix_c (c prefix : c18_str) : bool := c18_hasPrefix c (c18_cstr prefix).
+Definition c18_hasSuffix_c (c suffix : c18_str) : bool := c18_hasSuffix c (c18_cstr suffix).
+
+(* formatString when snprintf may fail (negative return value, e.g. an unconvertible wide character):
+   None = Dune::Exception *)
+Definition c18_formatString_err (F : option c18_str) : option c18_str :=
+  match F with
+  | None => None                                         (* if (r<0) DUNE_THROW(Dune::Exception, ...) *)
+  | Some F => Some (c18_formatString F)
+  end.
+
 (* ---------------------------------------------------------------- path.cc *)
 
 (* concatPaths *)
